@@ -269,6 +269,13 @@ def energyEstimate (c : Costs) (pl : Placement) (ls : List ELayer) :
   | none => none
   | some (res, tot) => some (res, truncInt tot)
 
+/-- a session on ONE `QTools` object: `pe(...)` called with several option sets, in order.  The object
+    keeps nothing between calls, so the k-th report is the report of a first call with the k-th options
+    (what `C19_pe_session_history_free` says, and what the harness checks on reused objects). -/
+def peSession (c : Costs) (ls : List ELayer) (calls : List Placement) :
+    List (Option (List (String × Entry) × Int)) :=
+  calls.map fun pl => energyEstimate c pl ls
+
 /-! ## extract_energy_sum / extract_energy_profile -/
 
 inductive EKey | inputs | outputs | parameters | opCost
